@@ -4,7 +4,7 @@ from props.sm_common import SMStandard, build_case, configs_for, yn_modes, mixed
 
 META = dict(
     text="Same Coq model of the security managers as C32. Specification monitor over all interleavings of SMP input, encryption changes, output polls, reconnects: an Encryption Information / Central Identification PDU leaves the device only while the link is encrypted, only after a pairing with bonding completed on this connection, each at most once per completed pairing, carrying the key / EDIV / Rand of the bond stored for that pairing (observed store_bond callback), and only while that pairing is still the connection's completed pairing. Proved for every tool box, bond data base, configuration and operation sequence of any length: the last clause (dist_stale) is the only one that can fail (C34_distribution_partial); the full statement is refuted with a witness (pending-distribution flags survive a later failed pairing attempt; known finding). Model tied to the real classes by differential runs; the monitor judges the implementation's traces.",
-    level_note="Trusted: Coq kernel, extraction, OCaml driver, C++ harness + ASan/UBSan, runner, Python peer. Model hand-written, tied on the compiled configurations. Only the responder key distribution of the code (LTK, EDIV, Rand of a legacy pairing with bonding_data_base) exists; identity / signing keys are not implemented by the code.",
+    level_note="Trusted: Coq kernel, extraction, OCaml driver, C++ harness + ASan/UBSan, runner, Python peer. Model hand-written, tied on the compiled configurations. Only the responder key distribution of the code (LTK, EDIV, Rand of a legacy pairing with bonding_data_base) exists; identity / signing keys are not implemented by the code. Also proved without the monitor (SM/SMDirect.v): a step that emits Encryption Information / Central Identification is an output poll in a state with encrypted = true and the pending flag set, and the flag is clear afterwards.",
     design_ref="DESIGN.md section 6 C34, docs/C34.md, docs/SM_MODEL.md",
     technique="Coq state-machine model + simulation invariant + executable monitor; extracted model vs C++ differential correspondence with a lock-step pairing peer")
 
